@@ -283,10 +283,57 @@ def _run_client(case):
             "events": len(cl.events)}
 
 
+def _run_reconnect(case):
+    """The event stream reconnect of Client.service (cut off, reconnect timer expired, reconnect, resend with
+    Last-Event-ID): the tcp connector's reopen()/serviceConnect() are replaced by a fake reconnect that installs a
+    new fake socket; everything else is the real Client.  -> exception text or None, bytes resent"""
+    from hio.core.http import clienting
+    from hio.base import tyming
+    tymist = tyming.Tymist()
+    cl = clienting.Client(hostname="127.0.0.1", port=8080, method="GET", path="/ev", tymth=tymist.tymen(),
+                          reconnectable=True, tymeout=0.5)
+    s = FakeSock(("127.0.0.1", 8080), 50000)
+    cl.connector.cs = s
+    cl.connector.accepted = True
+    socks = [s]
+
+    def service_connect():
+        if not cl.connector.connected:
+            n = FakeSock(("127.0.0.1", 8080), 50001)
+            socks.append(n)
+            cl.connector.cs, cl.connector.accepted, cl.connector.cutoff = n, True, False
+        return cl.connector.connected
+
+    def reopen():
+        cl.connector.cs, cl.connector.accepted, cl.connector.cutoff = None, False, False
+        return True
+    cl.connector.serviceConnect, cl.connector.reopen = service_connect, reopen
+    cl.request()
+    exc = None
+    try:
+        cl.service()
+        for d, e in _rounds(case):
+            if d:
+                s.inq.append(d)
+            cl.service()
+        s.eof = True
+        cl.service()
+        for _ in range(4):
+            tymist.tick(1.0)
+            cl.service()
+    except Exception as ex:
+        exc = [exn_kind(ex), type(ex).__name__ + ": " + str(ex)[:120]]
+    leid = cl.respondent.leid
+    return {"exc": exc, "leid": None if leid is None else leid.encode("utf-8", "replace").hex(),
+            "resent": bytes(socks[1].sent).hex() if len(socks) > 1 else ""}
+
+
 def run_impl(case):
     import contextlib, io
     with Recorder() as rec, contextlib.redirect_stderr(io.StringIO()):
         obs = _run_server(case) if case["side"] in ("wsgi", "bare") else _run_client(case)
+        if case.get("reconnect"):
+            obs["reconnect"] = _run_reconnect(case)
     obs.update(rec.tables())
     bodies = [bytes.fromhex(x[2]) for x in obs.get("served", [])] + [bytes.fromhex(x[2]) for x in obs.get("responses", [])]
     js = {}
@@ -303,6 +350,14 @@ def run_impl(case):
 def oracle(case, obs):
     if obs["exc"]:
         return f"{case['side']} service() raised {obs['exc'][1]}"
+    rc = obs.get("reconnect")
+    if rc:
+        if rc["exc"]:
+            return f"client service() raised {rc['exc'][1]} while reconnecting to the event stream"
+        if rc["leid"] and rc["resent"]:
+            want = b"Last-Event-Id: " + bytes.fromhex(rc["leid"]) + b"\r\n"
+            if want not in bytes.fromhex(rc["resent"]):
+                return f"the request resent after the reconnect does not carry {want!r}"
     exp = case.get("expect")
     if case["side"] in ("wsgi", "bare"):
         if obs["sib_closed"] or obs["sib_served"] != 2:
@@ -822,6 +877,17 @@ def _sse_long(rng):
     return first + nxt + rng.choice([b"", nxt])
 
 
+SSE_FIELDS = [b"retry: " + b"9" * 400 + b"\n", b"retry: 99999999999999999999\n", b"retry: 0\n", b"retry: 1e5\n", b"id: \xe2\x82\xac\n", b"id: \xf0\x9f\x98\x80x\n",
+              b"id: \xc3\xa9\n", b"id: a: b\n", b"id:\n", b"id: \xff\xfe\n", b"id: 7\n", b"id: " + b"k" * 300 + b"\n", b"id: x\ty \n", b"retry: 10\nid: 1\n"]
+
+
+def _sse_reconnect(rng):
+    ev = b"".join(rng.choice(SSE_FIELDS) for _ in range(rng.randint(1, 3))) + b"data: x\n\n"
+    if rng.random() < 0.3:
+        ev += rng.choice(SSE_FIELDS) + b"data: y\n\n"
+    return b"HTTP/1.1 200 OK\r\nContent-Type: text/event-stream\r\n\r\n" + ev
+
+
 def _sse(rng, bad_utf8):
     ev = b"retry: 10\n\nid: 1\ndata: hello\ndata: wor\xc3\xa9ld\n\n: comment\r\nevent: x\rdata: {\"a\":1}\r\n\r\n"
     if bad_utf8:
@@ -857,6 +923,9 @@ def _gen_client(rng):
         r, closing = _sse(rng, bad_utf8=rng.random() < 0.6)
         if rng.random() < 0.25:
             r, closing = _sse_long(rng), False
+        elif rng.random() < 0.4:
+            r, closing = _sse_reconnect(rng), True
+            kw["reconnect"] = True
         resps = [r]
         nreq = 1
         edits = ["sse"]
@@ -978,6 +1047,11 @@ def directed():
         C(SSEH + b"Transfer-Encoding: chunked\r\n\r\n" + CH(b"data: " + b"x" * 70000) + b"HTTP/1.1 200 OK\r\nTransfer-Encoding: chunked\r\n\r\n2\r\nhi\r\n0\r\n\r\n", nreq=2, edits=["sse-long"], settle=6),
         C(SSEH + b"Transfer-Encoding: chunked\r\n\r\n" + CH(b"data: " + b"x" * 70000) + OK + OK, nreq=2, edits=["sse-long"], settle=6),
         C(SSEH + b"\r\ndata: " + b"x" * 70000, edits=["sse-long"], eof=True, settle=5),
+        # the reconnect of an event stream: huge retry, ids outside latin-1
+        C(SSEH + b"\r\nretry: " + b"9" * 400 + b"\nid: 1\ndata: x\n\n", edits=["sse-reconnect"], eof=True, reconnect=True),
+        C(SSEH + b"\r\nid: \xe2\x82\xac\ndata: x\n\n", edits=["sse-reconnect"], eof=True, reconnect=True),
+        C(SSEH + b"\r\nid: \xc3\xa9 \xf0\x9f\x98\x80\nretry: 5\ndata: x\n\n", edits=["sse-reconnect"], eof=True, reconnect=True),
+        C(SSEH + b"\r\nid: 7\ndata: x\n\n", edits=["sse-reconnect"], eof=True, reconnect=True),
         C(SSEH + b"Transfer-Encoding: chunked\r\n\r\n" + CH(b"data: a\n\ndata: " + b"y" * 40000) + SSEH + b"Transfer-Encoding: chunked\r\n\r\n" + CH(b"data: " + b"z" * 40000), edits=["sse-long"], settle=6),
         C(b"HTTP/1.1 302 Found\r\nLocation: http://h:ab/x\r\nContent-Length: 0\r\n\r\n" + OK, nreq=2, edits=["redirect-bad"]),  # next response still delivered
         # a redirected HEAD is re-sent as HEAD: its reply has no body even without Content-Length
